@@ -228,6 +228,32 @@ def rule_set_err_atomic(ctx):
            "the err MutexGuard is released before the new failure is stored", f.loc())
 
 
+def rule_error_before_cancel_guard(ctx):
+    R = "C17.10"
+    ctx.rule(R, "a failing main task records its error BEFORE it lets go of the scope's cancel guard: in Task::run / Task::run_blocking no value that holds the Arc<CancelGuard> (the Task itself, or the guard taken out of it) is dropped on a path that still leads to set_err. If the last main task dropped the guard first, CancelGuard::drop would cancel the scope outside the err mutex and a task failing only because of that cancellation could record its error first - the scope would report a consequence instead of the first failure")
+    n = 0
+    for q, is_async in ((TASK + "::run", True), (TASK + "::run_blocking", False)):
+        f = ctx.body(q) if is_async else ctx.fn(q)
+        T = ctx.T(f)
+        cfg = ctx.cfg(f, with_cancel=False)
+        se = [c["bb"] for c in T.calls() if c["q"] == TG + "::set_err"]
+        if not se:
+            continue
+        n += 1
+        holders = set(i for i, ty in enumerate(f.locals) if not ty.s.startswith("&") and "Weak<" not in ty.s and "PanicReporter" not in ty.s
+                      and ("CancelGuard<" in ty.s or "scope::task::Task<" in ty.s))
+        early = []
+        for bi, b in enumerate(f.blocks):
+            t = b["t"]
+            if t["k"] == "drop" and not t["p"].get("pr") and t["p"]["l"] in holders and cfg.reachable[bi]:
+                after = cfg.reach_from([y for _, y in cfg.succ[bi]])
+                if any(x in after for x in se):
+                    early.append((bi, f.locals[t["p"]["l"]].s.split("::")[-1][:40]))
+        ctx.ob(R, "%s: cancel guard alive until the error is recorded" % q.split("::")[-1], not early, "no holder of the cancel guard is dropped before set_err" if not early else
+               "a value holding the scope's cancel guard (%s) is dropped on a path that still reaches set_err: the scope can be cancelled - and another task's consequential error recorded - before this task's own error" % early[0][1], f.loc(f.blocks[early[0][0]]["t"].get("ln")) if early else f.loc())
+    ctx.floor(R, "task runners recording errors", n, 2)
+
+
 def rule_guards(ctx):
     R = "C17.5"
     ctx.rule(R, "guards: dropping the TerminateGuard sends `terminated` and dropping the CancelGuard cancels the scope context, on every path; dropping an undefused must-complete guard (a scope future abandoned before completion) aborts the process on every path")
@@ -337,4 +363,4 @@ def rule_result_mapping(ctx):
         ctx.ob(R, "%s Ok payload" % name, okt, "Ok carries the joined root task's value" if okt else "Ok does not carry the root task's result", f.loc())
 
 
-RULES = [("C17.1", rule_join), ("C17.2", rule_spawn_wrapping), ("C17.3", rule_who_spawns), ("C17.4", rule_set_err), ("C17.8", rule_set_err_atomic), ("C17.5", rule_guards), ("C17.7", rule_result_mapping), ("C17.9", rule_signal_once)]
+RULES = [("C17.1", rule_join), ("C17.2", rule_spawn_wrapping), ("C17.3", rule_who_spawns), ("C17.4", rule_set_err), ("C17.8", rule_set_err_atomic), ("C17.5", rule_guards), ("C17.10", rule_error_before_cancel_guard), ("C17.7", rule_result_mapping), ("C17.9", rule_signal_once)]
